@@ -77,7 +77,7 @@ def tetHandler2 (op : String) : Option Handler :=
           | _ => withOut pfo o fun d =>
               if !S.valid then "skip shape-outside-domain"
               else if d.isNaN then "fail nan-distance"
-              else judgeDist D3 S P so (q d)
+              else tetTag S P (judgeDist D3 S P so (q d))
         | none => "skip bad-args" }
   | "wcont" => some {
       model := fun a => run (do let s ← ptet; let m ← piso3; let p ← pv3
@@ -91,7 +91,7 @@ def tetHandler2 (op : String) : Option Handler :=
           let P := M.invAct (q3 p)
           match o with
           | "panic" :: _ => tetPanicVerdict S P true
-          | _ => withOut pbool o fun c => judgeCont D3 S P c
+          | _ => withOut pbool o fun c => tetTag S P (judgeCont D3 S P c)
         | none => "skip bad-args" }
   | _ => none
 
